@@ -61,7 +61,18 @@ type gScen struct {
 	zs         int    // number of registered ZERO-SIZE components (types Z0..Z2, all implementing Ifc0): Go gives every
 	                  // pointer to a zero-size value the same address, so identity-by-address conflates them
 	natural    bool   // do not impose any order (Go's own sync.Map order)
+	hist       int    // history before / around this start (the model knows nothing of it: a start is a function of its own inputs):
+	                  // 1 = the SAME component objects were started once before, in another App (state reset to what a user
+	                  //     would reset: nothing — only the harness's own counters); 2 = between this App's start and its
+	                  //     post-start lookups ANOTHER App is started on fresh objects with the same names and rotated qualifiers
+	reuse      []node // hist 1, set by the prelude: the objects to start again
 }
+
+// points declared with real struct tags (type 32): name → 'f'/'w' + tag text, in declaration order (after every Base slot)
+var staticSlots = []string{"FQ", "FS"}
+var staticSlotTags = map[string]string{"FQ": "fF2,qualifier=a,required=false", "FS": "fF1,returns=*,qualifier=b,required=false"}
+
+func hasStaticSlots(ty int) bool { return ty == 32 }
 
 var ifaceTypes = []reflect.Type{
 	reflect.TypeOf((*Ifc0)(nil)).Elem(), reflect.TypeOf((*Ifc1)(nil)).Elem(),
@@ -71,11 +82,24 @@ var ifaceTypes = []reflect.Type{
 	reflect.TypeOf((*definition.CloserComponent)(nil)).Elem(),
 }
 
-var cfgTags = []string{"", "lit", "${absent.key}", "${absent.key},required=false", "${absent.key:dflt}", "", "", ""}
+var cfgTags = []string{"", "lit", "${absent.key}", "${absent.key},required=false", "${absent.key:dflt}", "", "", "",
+	"${present}", "${nest.${sel}}", "${absent.${sel}}", "", ""}
+
+// the configuration document of every start: `sec` has DECOY siblings of its key `a` (spellings that differ by `_` / `-`,
+// which no field asks for), `nest` is reached through a placeholder inside a placeholder
+const graphConfigDoc = "present: cfgval\nsel: inner\nnest:\n  inner: deep\nsec:\n  _a: decoy1\n  a: good\n  a-: decoy2\n  a_: decoy3\ntm: 2024-05-06T07:08:09Z\n"
+
+// what the V slot (cfg 1, 4, 8, 9) and W0.A (cfg 11) hold after a successful creation
+var cfgExpectV = map[int]string{1: "lit", 4: "dflt", 8: "cfgval", 9: "deep"}
 
 // cfg 5: an OPTIONAL prefix point on a section nobody configured; 6: a REQUIRED one (the start fails); 7: both on one holder,
 // the optional one declared first (the start fails all the same)
-var cfgPrefix = map[int][2]string{5: {"absent.sec,required=false", ""}, 6: {"", "absent.sec"}, 7: {"absent.sec,required=false", "absent.sec"}}
+var cfgPrefix = map[int][2]string{5: {"absent.sec,required=false", ""}, 6: {"", "absent.sec"}, 7: {"absent.sec,required=false", "absent.sec"},
+	11: {"sec", ""}}
+
+// cfg 12: a time.Time field bound by prefix WITH a validate argument (validator.Struct refuses a time.Time: the start fails
+// with an error)
+const cfgTimeTag = "tm,validate=required"
 
 type failLoader struct{}
 
@@ -118,6 +142,8 @@ type gRun struct {
 	spellingHits []string
 	startCreated map[int]bool // nodes whose creation completed during Run itself
 	inits        map[int]int  // how often Init ran on each node's registered instance, read at the very end
+	shadowBad    []string // T30: the embedded struct's field differs from Base's field of the same name and tag
+	cfgBad       []string // configuration slots of created nodes that do not hold the configured value
 	typeNameHits []string // custom-named nodes whose default (type) name resolved in a lookup although nothing is registered under it
 	slotInfo map[string][3]string // "row.slot" → kind,target,tagkind+tag
 	appRow   int
@@ -128,13 +154,48 @@ type gRun struct {
 }
 
 // rowNames: universe nodes first (scenario order), then every other registered component sorted by name.
+// variantScen: the same components under the same names, the qualifier values of the qualifier-carrying types handed round
+// (reversed), no history of its own — what ANOTHER application of the same process could look like
+func variantScen(sc *gScen) *gScen {
+	v := cloneScen(sc)
+	v.hist, v.reuse = 0, nil
+	var idx []int
+	for i, n := range v.nodes {
+		if n.ty < len(utInfos) && utInfos[n.ty].qual {
+			idx = append(idx, i)
+		}
+	}
+	for a, b := 0, len(idx)-1; a < b; a, b = a+1, b-1 {
+		v.nodes[idx[a]].q, v.nodes[idx[b]].q = v.nodes[idx[b]].q, v.nodes[idx[a]].q
+	}
+	return v
+}
+
 func runGraph(sc *gScen) *gRun {
+	if sc.hist == 1 && sc.reuse == nil {
+		// the same objects are started once before, in an App of their own; whatever that start left in them is what a second
+		// start finds (only the harness's own counters are reset)
+		pre := cloneScen(sc)
+		pre.hist = 0
+		if r0 := runGraph(pre); r0.status != "dupname" && r0.status != "hang" && len(r0.nodesObj) == len(sc.nodes) {
+			again := *sc
+			again.reuse = r0.nodesObj
+			r := runGraph(&again)
+			r.sc = sc
+			return r
+		}
+	}
 	env := &runEnv{clones: map[string]map[int]node{}, byPtr: map[any]string{}, closed: map[string]int{}, dummies: map[any]bool{},
 		cloneGen: map[any]int{}, freshEarly: sc.retry()}
 	res := &gRun{sc: sc, rowOf: map[string]int{}, fields: map[string][]string{}, pubs: map[int]string{}, slotInfo: map[string][3]string{}}
 	var comps []any
 	for i, gn := range sc.nodes {
 		n := universeCtors[gn.ty]()
+		if sc.reuse != nil {
+			n = sc.reuse[i]
+			rb := n.base()
+			rb.initRuns, rb.Inits, rb.initSnap, rb.Fetched = 0, 0, nil, nil
+		}
 		b := n.base()
 		b.Idx, b.Cust, b.Q, b.R, b.Ord, b.EarlyVer, b.AfterVer, b.Flt = i, gn.cust, gn.q, gn.r, gn.ord, gn.early, gn.after, gn.flt
 		b.spec = gn.slots
@@ -147,9 +208,12 @@ func runGraph(sc *gScen) *gRun {
 				prefillSlots(b, gn.slots, env)
 			}
 		}
-		if gn.cfg > 0 && gn.cfg < 5 {
+		if gn.cfg > 0 && gn.cfg < len(cfgTags) && cfgTags[gn.cfg] != "" {
 			t := cfgTags[gn.cfg]
 			b.cfgSpec = &t
+		}
+		if gn.cfg == 12 {
+			b.tSpec = cfgTimeTag
 		}
 		if w, ok := cfgPrefix[gn.cfg]; ok {
 			b.wSpec = w
@@ -213,7 +277,7 @@ func runGraph(sc *gScen) *gRun {
 	}
 	fac := factory.NewWithRegistries(dr, tr)
 	a := app.NewApp()
-	loaders := []configure.Loader{loader.NewRawLoader([]byte("present: cfgval\n"))}
+	loaders := []configure.Loader{loader.NewRawLoader([]byte(graphConfigDoc))}
 	if sc.loaderFail {
 		loaders = append(loaders, failLoader{})
 	}
@@ -270,6 +334,13 @@ func runGraph(sc *gScen) *gRun {
 		}
 	}
 	res.nested = append([]string{}, tr.nested...)
+	if res.status == "ok" && sc.hist == 2 {
+		// another application of the same process starts now, on fresh objects: nothing of it may reach this one
+		saveEnv, saveScans := curEnv, atomic.LoadInt64(&scanCalls)
+		runGraph(variantScen(sc))
+		curEnv = saveEnv
+		atomic.StoreInt64(&scanCalls, saveScans)
+	}
 	if res.status == "ok" && sc.retry() {
 		// the lazy components whose first creation is made to fail (and the designated entry points of retry cycles): look them
 		// up until they are created (at most 4 times); what each attempt answered is kept for the oracles
@@ -425,7 +496,8 @@ func runGraph(sc *gScen) *gRun {
 		}
 		var plain []int
 		for i, n := range res.nodesObj {
-			if _, ok := n.(*T18); ok {
+			_, p28 := n.(*T28)
+			if _, ok := n.(*T18); ok || p28 {
 				plain = append(plain, i)
 			}
 		}
@@ -449,6 +521,14 @@ func runGraph(sc *gScen) *gRun {
 				tag += ",qualifier=" + gn.progQ // what the point asks for once the T25 processor has qualified it
 			}
 			res.slotInfo[fmt.Sprintf("%d.%s", i, sn)] = [3]string{kind, target, tag}
+		}
+		if hasStaticSlots(gn.ty) {
+			ht := reflect.TypeOf(res.nodesObj[i]).Elem()
+			for _, sn := range staticSlots {
+				sf, _ := ht.FieldByName(sn)
+				kind, target := kindOf(sf.Type, tyOf)
+				res.slotInfo[fmt.Sprintf("%d.%s", i, sn)] = [3]string{kind, target, staticSlotTags[sn]}
+			}
 		}
 	}
 	appT := reflect.TypeOf(app.App{})
@@ -503,6 +583,41 @@ func runGraph(sc *gScen) *gRun {
 						res.wiped = append(res.wiped, fmt.Sprintf("%d.%s", i, sn)) // held a dummy before the start, holds nothing now
 					}
 				}
+			}
+		}
+		for i, n := range res.nodesObj {
+			if hasStaticSlots(sc.nodes[i].ty) {
+				hv := reflect.ValueOf(n).Elem()
+				for _, sn := range staticSlots {
+					res.fields[fmt.Sprintf("%d.%s", i, sn)] = readSlot(hv.FieldByName(sn), env)
+				}
+			}
+		}
+		for i, n := range res.nodesObj {
+			if !tr.created[names[i]] {
+				continue
+			}
+			if t30, ok := n.(*T30); ok {
+				if _, ok := sc.nodes[i].slots["P0"]; ok && t30.shadowed.P0 != t30.Base.P0 {
+					res.shadowBad = append(res.shadowBad, fmt.Sprintf("%d.P0", i))
+				}
+				if _, ok := sc.nodes[i].slots["X1"]; ok {
+					k1, _ := env.keyOf(t30.shadowed.X1) // func-kinded substitutes are not comparable: compare their tokens
+					k2, _ := env.keyOf(t30.Base.X1)
+					if k1 != k2 {
+						res.shadowBad = append(res.shadowBad, fmt.Sprintf("%d.X1", i))
+					}
+				}
+			}
+			b := n.base()
+			if isUnwired(n) {
+				continue // created before the configuration processors are active (finding D8): judged by the c05 / c09 oracles of that finding
+			}
+			if want, ok := cfgExpectV[sc.nodes[i].cfg]; ok && b.V != want {
+				res.cfgBad = append(res.cfgBad, fmt.Sprintf("%d.V holds %q, configured %q", i, b.V, want))
+			}
+			if sc.nodes[i].cfg == 11 && b.W0.A != "good" {
+				res.cfgBad = append(res.cfgBad, fmt.Sprintf("%d.W0.A holds %q, configured %q (the section also has the keys _a, a-, a_)", i, b.W0.A, "good"))
 			}
 		}
 		av := reflect.ValueOf(a).Elem()
@@ -753,7 +868,11 @@ func (r *gRun) scenarioLine() string {
 		return 0
 	}
 	var recs []string
-	recs = append(recs, "G", fmt.Sprintf("X %d %d %d %d %s", b2i(sc.loaderFail), b2i(sc.scanFail), sc.rankSeed, sc.zs, joinInts(sc.prefill)))
+	xrec := fmt.Sprintf("X %d %d %d %d %s", b2i(sc.loaderFail), b2i(sc.scanFail), sc.rankSeed, sc.zs, joinInts(sc.prefill))
+	if sc.hist != 0 {
+		xrec += fmt.Sprintf(" %d", sc.hist)
+	}
+	recs = append(recs, "G", xrec)
 	recs = append(recs, "K "+joinInts(r.order))
 	recs = append(recs, "B "+joinInts(r.boot))
 	for i, row := range r.rows {
@@ -796,6 +915,9 @@ func (r *gRun) scenarioLine() string {
 	}
 	for i := range sc.nodes {
 		emit(i, slotNames)
+		if hasStaticSlots(sc.nodes[i].ty) {
+			emit(i, staticSlots)
+		}
 	}
 	emit(r.appRow, []string{"ApplicationRunners", "CloserComponents"})
 	return strings.Join(recs, " | ")
@@ -853,6 +975,11 @@ func (r *gRun) slotKeys() []string {
 	for i, n := range r.sc.nodes {
 		for _, sn := range slotNames {
 			if _, ok := n.slots[sn]; ok {
+				keys = append(keys, fmt.Sprintf("%d.%s", i, sn))
+			}
+		}
+		if hasStaticSlots(n.ty) {
+			for _, sn := range staticSlots {
 				keys = append(keys, fmt.Sprintf("%d.%s", i, sn))
 			}
 		}
@@ -963,6 +1090,14 @@ func (r *gRun) oracles() []string {
 			add("c09-optional-wiped", "the optional point %s held a user-supplied value before the start and was reset to nothing", k)
 		}
 	}
+	for _, k := range r.shadowBad {
+		add("c07-same-name-field", "the holder has two injection points with the Go field name of %s (one in an embedded struct) and the same tag: they were not given the same component(s)", k)
+		add("c06-same-name-field", "the holder has two injection points with the Go field name of %s (one in an embedded struct) and the same tag: they were not given the same component(s)", k)
+	}
+	for _, k := range r.cfgBad {
+		add("c10-config-value", "%s", k)
+		add("c09-config-value", "%s", k)
+	}
 	for _, k := range r.oldEarly {
 		add("c04-retry-old-early", "%s uses the early reference that was handed out during an earlier, failed attempt: something of the failed attempt stayed visible", k)
 	}
@@ -971,9 +1106,15 @@ func (r *gRun) oracles() []string {
 	}
 	// C04: the first lookup of a component whose Init fails the first time must not hand out the half-built instance
 	seen := map[string]bool{}
+	anyInitOnce := false // (a scenario whose looked-up components have no failing Init anywhere — history 2 — has nothing to refuse)
+	for _, n := range r.sc.nodes {
+		if n.flt&fltInitOnce != 0 {
+			anyInitOnce = true
+		}
+	}
 	for _, t := range r.retries {
 		row, ok, _ := strings.Cut(t, ":")
-		if !seen[row] && ok == "true" {
+		if !seen[row] && ok == "true" && anyInitOnce {
 			add("c04-retry-half-built", "the first lookup of node %s returned no error although its Init failed: the half-built instance was handed out as if created", row)
 		}
 		seen[row] = true
@@ -1314,6 +1455,9 @@ func parseGraphScenario(line string) (*gScen, error) {
 					}
 				}
 			}
+			if len(f) > 6 {
+				sc.hist, _ = strconv.Atoi(f[6])
+			}
 		case "N":
 			if len(f) < 12 {
 				return nil, fmt.Errorf("bad N")
@@ -1340,7 +1484,7 @@ func parseGraphScenario(line string) (*gScen, error) {
 				return nil, fmt.Errorf("bad F")
 			}
 			row, _ := strconv.Atoi(f[1])
-			if row < len(sc.nodes) {
+			if _, static := staticSlotTags[f[2]]; row < len(sc.nodes) && !static {
 				t, _ := hx.UnHex(f[6])
 				sc.nodes[row].slots[f[2]] = f[5] + t
 			}
@@ -1366,7 +1510,7 @@ func graphReplay(scn string, w *hx.Writer) {
 
 func cloneScen(sc *gScen) *gScen {
 	c := &gScen{loaderFail: sc.loaderFail, scanFail: sc.scanFail, rankSeed: sc.rankSeed, natural: sc.natural, zs: sc.zs,
-		prefill: append([]int{}, sc.prefill...)}
+		prefill: append([]int{}, sc.prefill...), hist: sc.hist}
 	for _, n := range sc.nodes {
 		m := n
 		m.slots = map[string]string{}
